@@ -175,7 +175,7 @@ def direct_case(draw, tier="quick"):
     lens = draw(st.lists(st.integers(0, 4), min_size=k, max_size=k))
     form = draw(st.sampled_from(["table_list", "table_dict", "vector_of_vectors", "rshift_chain", "empty_cols", "zero_row_update", "zero_row_update"]))
     return {"lens": lens, "form": form, "typed": draw(st.booleans()), "how": draw(st.sampled_from(["dict", "mask", "slice", "typed"])),
-            "update": draw(st.sampled_from(["attr", "attr_indexed", "rshift_dict", "rshift_vec", "lshift_row"])), "m": draw(st.integers(1, 3))}
+            "update": draw(st.sampled_from(["attr", "attr_indexed", "attr_generator", "rshift_dict", "rshift_vec", "lshift_row"])), "m": draw(st.integers(1, 3))}
 
 
 def run_zero_row(case, ctx):
@@ -199,6 +199,8 @@ def run_zero_row(case, ctx):
     try:
         if upd == "attr":
             t.c0 = vals
+        elif upd == "attr_generator":
+            t.c0 = (x for x in vals)
         elif upd == "attr_indexed":
             setattr(t, f"c0__{k - 1}" if k >= 2 else "c0", vals)
         elif upd == "rshift_dict":
